@@ -646,6 +646,8 @@ class StrategyBase(Node):
         self.setup(self.parent._original_data, **all_kwargs)
         if self.name not in self.parent._universe:
             self.parent._universe[self.name] = np.nan
+            # the parent's window of the date was cut without the column
+            self.parent._last_chk = None
 
     def get_data(self, key):
         """
